@@ -40,14 +40,14 @@ ASSUMPTIONS = ['reference evaluator lv/ref.py is the oracle', 'CPython sqlite3',
                'across table boundaries is a rendering difference)',
                'a history re-uses one LogicaProgram object; each predicate of it is executed '
                'on its own fresh SQLite connection']
-OPTS = dict(p_colnames=0.0, p_neg=0.2, p_agg=0.3, p_distinct=0.3, p_null_fact=0.03,
-            p_or=0.2, p_fcall=0.12, p_sibling_reuse=0.4, p_feed_sibling=0.2,
-            p_sibling_reuse_neg=0.5, p_multi_combine=0.1,
+OPTS = dict(p_colnames=0.0, p_neg=0.2, p_agg=0.25, p_distinct=0.3, p_null_fact=0.03,
+            p_or=0.15, p_fcall=0.1, p_sibling_reuse=0.4, p_feed_sibling=0.2,
+            p_sibling_reuse_neg=0.5,
             agg_ops=('Sum', 'Min', 'Max', '+'), n_idb=(3, 4), n_inj=(1, 3),
             nest_depth=2, p_two_rules=0.2,
-            p_aggx=0.04, p_aggx_nobody=0.3, p_agg_nobody=0.05,
-            p_inj_combine=0.6, p_inj_extra=0.45, p_fcall_nest=0.35, p_name_clash=0.4,
-            p_call_idb=0.3)
+            p_aggx=0.03, p_aggx_nobody=0.3, p_agg_nobody=0.04,
+            p_inj_combine=0.6, p_inj_extra=0.35, p_fcall_nest=0.35, p_name_clash=0.4,
+            p_call_idb=0.2)
 CHOICES = ((), ('@NoInject',), ('@With',), ('@NoWith',), ('@NoInject', '@NoWith'),
            ('@NoInject', '@With'), ('@Ground',))
 N_ASSIGNMENTS = 6
